@@ -518,14 +518,34 @@ func (w *world) hit(key, what string) {
 	w.hits = append(w.hits, hit{key, what})
 }
 
-// peerWrite sends one command byte from the peer to the session's read handler.
+// peerWrite sends one command byte from the peer to the session's read handler. Over a pipe the byte is either
+// taken by a handler blocked in its read, or — nobody reads — never: that is decided at quiescence, not by a clock.
 func (w *world) peerWrite(cs *cstate, b byte) bool {
 	if cs.peerClosedBy {
 		return false
 	}
-	_ = cs.peer.SetWriteDeadline(time.Now().Add(ceiling))
-	_, err := cs.peer.Write([]byte{b})
-	return err == nil
+	if w.mode == "tcp" {
+		_ = cs.peer.SetWriteDeadline(time.Now().Add(ceiling))
+		_, err := cs.peer.Write([]byte{b})
+		return err == nil
+	}
+	done := make(chan error, 1)
+	go func() {
+		_, err := cs.peer.Write([]byte{b})
+		done <- err
+	}()
+	if err := settleQuiet(); err != nil {
+		w.dead = "settle:" + strings.SplitN(err.Error(), "\n", 2)[0]
+	}
+	select {
+	case err := <-done:
+		return err == nil
+	default:
+	}
+	_ = cs.peer.SetWriteDeadline(past) // still blocked at quiescence: undeliverable
+	<-done
+	_ = cs.peer.SetWriteDeadline(time.Time{})
+	return false
 }
 
 func (w *world) op(f []string) string {
